@@ -47,11 +47,24 @@ int cmd_c13(int argc, char **argv) {
   int ncr = n + (thorough ? 40 : 8); int hm = thorough ? 6 : 3; long idx = 0;
   static const double EQ[] = {0.1, 1.0, 3.0, 8.048, 17.44, 40.0, 100.0, 200.0, 0.0, -1.0};
   for (int ci = 0; ci < ncr; ci++) {
-    Crystal_Struct *c; Crystal_Struct gen; Crystal_Atom atoms[5]; char nm[16];
+    Crystal_Struct *c; Crystal_Struct gen; Crystal_Atom atoms[5]; char nm[16]; Crystal_Array *uarr = NULL; int looked_up = 0;
     if (ci < n) c = Crystal_GetCrystal(names[ci], NULL, NULL);
     else { RNG = 777 + ci; snprintf(nm, sizeof nm, "tri%d", ci); gen.name = nm; gen.a = 3 + 6 * rnd01(); gen.b = 3 + 6 * rnd01(); gen.c = 3 + 8 * rnd01(); gen.alpha = 70 + 40 * rnd01(); gen.beta = 70 + 40 * rnd01(); gen.gamma = 70 + 40 * rnd01();
       gen.n_atom = rndint(1, 5); for (int i = 0; i < gen.n_atom; i++) { atoms[i].Zatom = rndint(1, 92); atoms[i].fraction = rndint(0, 2) ? 1.0 : 0.5; atoms[i].x = rnd01(); atoms[i].y = rnd01(); atoms[i].z = rnd01(); }
-      gen.atom = atoms; gen.volume = Crystal_UnitCellVolume(&gen, NULL); c = &gen; }
+      /* one cell per crystal system before the triclinic ones: equal edges and equal angles are where shortcuts live */
+      switch (ci - n) {
+        case 0: gen.b = gen.c = gen.a; gen.alpha = gen.beta = gen.gamma = 90; break;                       /* cubic */
+        case 1: gen.b = gen.a; gen.alpha = gen.beta = gen.gamma = 90; break;                               /* tetragonal */
+        case 2: gen.alpha = gen.beta = gen.gamma = 90; break;                                              /* orthorhombic */
+        case 3: gen.b = gen.a; gen.alpha = gen.beta = 90; gen.gamma = 120; break;                          /* hexagonal */
+        case 4: gen.b = gen.c = gen.a; gen.alpha = gen.beta = gen.gamma = 57.237; break;                   /* rhombohedral */
+        case 5: gen.alpha = gen.gamma = 90; break;                                                         /* monoclinic */
+        default: break; }
+      gen.atom = atoms; gen.volume = Crystal_UnitCellVolume(&gen, NULL); c = &gen;
+      /* every other generated cell reaches the functions the way a user's crystal does: edited in place (so its volume field is stale),
+       * added to a private collection, and looked up again */
+      if ((ci - n) % 2 == 1) { gen.volume = 123.456; uarr = Crystal_ArrayInit(2, NULL); if (uarr && Crystal_AddCrystal(&gen, uarr, NULL) == 1) { Crystal_Struct *g = Crystal_GetCrystal(nm, uarr, NULL); if (g) { c = g; looked_up = 1; } }
+        if (!looked_up) gen.volume = Crystal_UnitCellVolume(&gen, NULL); } }
     RNG = 4242 + ci;
     for (int h = -hm; h <= hm; h++) for (int k = -hm; k <= hm; k++) for (int l = -hm; l <= hm; l++) {
       /* quick: every hkl with |.|<=3 on one seeded (E, dw, rel) tuple; thorough: |.|<=6 */
@@ -66,7 +79,8 @@ int cmd_c13(int argc, char **argv) {
       event(c, ci < n, h, k, l, E, dw, rel);
       }
     }
-    if (ci < n) Crystal_Free(c);
+    if (ci < n || looked_up) Crystal_Free(c);
+    if (uarr) Crystal_ArrayFree(uarr);
   }
   for (int i = 0; i < n; i++) xrlFree(names[i]); xrlFree(names);
   return 0;
